@@ -260,7 +260,9 @@ func genC14(c *Ctx) {
 		}
 	}
 	// BaseURL elements and out-of-range BaseURL index
-	for _, tr := range []string{"u10", "u20d3u12", "u5,d5", "u1,d2,s3"} {
+	// (more than ten patterns: BaseURL indices with two digits)
+	for _, tr := range []string{"u10", "u20d3u12", "u5,d5", "u1,d2,s3", "u3,d3,u2d1,d1u2,u5,d5,u1d1,d2u1,u4,d4,d3u3,u2,d7u2",
+		"u10,u10,u10,u10,u10,u10,u10,u10,u10,u10,d10u10"} {
 		np := strings.Count(tr, ",") + 1
 		res := doLive("GET", "/livesim2/traffic_"+tr+"/testpic_2s/Manifest.mpd?nowMS=100000")
 		m, err := parseMPD(res.body)
